@@ -61,8 +61,20 @@ fn gen_cfg(t: &mut Tape) -> (Cfg, bool) {
         }
     }
     // how color-only is requested
-    match t.weighted(&[6, 3]) {
+    match t.weighted(&[6, 3, if c.has("features") { 0 } else { 1 }]) {
         0 => c.flag("color-only"),
+        2 => {
+            // through a custom feature enabled in the main section (`delta --features interactive`
+            // is the manual's recipe for interactive.diffFilter; here the feature itself says
+            // color-only).  With side-by-side also requested this is the listed finding KF-C02-1.
+            let mut g = c.gitconfig.take().unwrap_or_default();
+            g.push_str("[delta]\n    features = interactive\n");
+            if t.chance(1, 3) {
+                g.push_str("    side-by-side = true\n");
+            }
+            g.push_str("[delta \"interactive\"]\n    color-only = true\n");
+            c.gitconfig = Some(g);
+        }
         _ => {
             let mut g = c.gitconfig.take().unwrap_or_default();
             g.push_str("[delta]\n    color-only = true\n");
@@ -112,7 +124,7 @@ impl Prop for C02 {
         3000
     }
     fn rule(&self) -> String {
-        "cases = `git log -p`/`show`/`diff`/`add -p`-shaped stream (commit metadata, diffstat, every file event, submodules, binary, combined incl. conflict-marker-like lines, `\\ No newline`), plain or coloured with git's default palette; final line with/without newline x option set in which color-only is given (flag or gitconfig key) together with anything else (side-by-side, line numbers, decorations, omit styles, navigate, hyperlinks, presets, widths, tabs, markers, themes). Oracle: (1) always: number of output lines == number of input lines; (2) unless an option that color-only presets or that adds text is set explicitly (decided syntactically from the generated options): visible text of output line i == visible text of input line i (independent terminal model on both sides). Non-trivial = input has a commit line, a file header and a hunk, and the option set has >=1 structural option besides color-only; distinct by hash of (input, argv, gitconfig).".to_string()
+        "cases = `git log -p`/`show`/`diff`/`add -p`-shaped stream (commit metadata, diffstat, every file event, submodules, binary, combined incl. conflict-marker-like lines, `\\ No newline`), plain or coloured with git's default palette; final line with/without newline x option set in which color-only is given (flag, key in the main gitconfig section, or key in a custom feature enabled there) together with anything else (side-by-side, line numbers, decorations, omit styles, navigate, hyperlinks, presets, widths, tabs, markers, themes). Oracle: (1) always: number of output lines == number of input lines; (2) unless an option that color-only presets or that adds text is set explicitly (decided syntactically from the generated options): visible text of output line i == visible text of input line i (independent terminal model on both sides). Non-trivial = input has a commit line, a file header and a hunk, and the option set has >=1 structural option besides color-only; distinct by hash of (input, argv, gitconfig).".to_string()
     }
     fn assumptions(&self) -> Vec<String> {
         vec![
@@ -158,9 +170,12 @@ impl Prop for C02 {
                 // delta may right-pad a background-coloured line with blanks (fill)
                 let ok = ta == tb || (tb.starts_with(&ta) && tb[ta.len()..].chars().all(|c| c == ' '));
                 if !ok {
-                    return Verdict::Fail(
-                        Failure::new("C02:text", format!("line {}: input shows `{}` but output shows `{}`", i + 1, ta, tb)).with(detail(&cfg)),
-                    );
+                    let mut f = Failure::new("C02:text", format!("line {}: input shows `{}` but output shows `{}`", i + 1, ta, tb)).with(detail(&cfg));
+                    let g = cfg.gitconfig.clone().unwrap_or_default();
+                    if g.contains("[delta \"interactive\"]") && (cfg.has("side-by-side") || g.contains("side-by-side = true")) {
+                        f.traits.push("color-only-from-custom-feature+side-by-side".to_string());
+                    }
+                    return Verdict::Fail(f);
                 }
             }
         }
